@@ -41,7 +41,7 @@ func (t *tables) gobTableFor(s *StructInfo) *gobTable {
 
 func checkC03(w *World, c *Check, tier string) {
 	c.Exhaustive = true
-	c.Explanation = "Decides that the two hand-written gob tables agree for every (type, field) of the 14 vocabulary structs and 3 tagged sub-structs: the gob writer (every update of the map[string][]byte property map with a constant key whose value derives, on the SSA form, from that field) and the gob reader (every store into that field — or decode through its address — whose value derives from a comma-ok lookup of a constant key in the property map). Obligations per field: written (W-cover), read (R-cover), writer and reader use exactly the same key (RW, case-sensitive), no key is shared by two fields (dup), no sign-sensitive or inverted emptiness guard (guard), the encode/decode helpers of a field are a matching pair (pair: item/items forms, a type's own GobEncode/GobDecode, int64/uint/float64/bool by the type handed to gob), every type has GobEncode/GobDecode and MarshalBinary/UnmarshalBinary that delegate to them (M), and (flag) the 'has data' boolean the encoders keep beside the property map is true — or the delegated helper's own flag — on every path from every map update to every later read of the flag (phis and captured named results followed), so that no entry is thrown away because it was the only one. The dispatch of type names to these codecs is decided by C07. NOT decided: value equality after a real round trip; the internals of encoding/gob. ADDED: (invent) gob readers fill a property from the stored bytes only; (fresh) registry rows and constructors set nothing but the type and hand out memory of their own; (flag)/(recognise) see DESIGN 8.4."
+	c.Explanation = "Decides that the two hand-written gob tables agree for every (type, field) of the 14 vocabulary structs and 3 tagged sub-structs: the gob writer (every update of the map[string][]byte property map with a constant key whose value derives, on the SSA form, from that field) and the gob reader (every store into that field — or decode through its address — whose value derives from a comma-ok lookup of a constant key in the property map). Obligations per field: written (W-cover), read (R-cover), writer and reader use exactly the same key (RW, case-sensitive), no key is shared by two fields (dup), no sign-sensitive or inverted emptiness guard (guard), the encode/decode helpers of a field are a matching pair (pair: item/items forms, a type's own GobEncode/GobDecode, int64/uint/float64/bool by the type handed to gob), every type has GobEncode/GobDecode and MarshalBinary/UnmarshalBinary that delegate to them (M), and (flag) the 'has data' boolean the encoders keep beside the property map is true — or the delegated helper's own flag — on every path from every map update to every later read of the flag (phis and captured named results followed), so that no entry is thrown away because it was the only one. The dispatch of type names to these codecs is decided by C07. NOT decided: value equality after a real round trip; the internals of encoding/gob. ADDED: (invent) gob readers fill a property from the stored bytes only; (fresh) registry rows and constructors set nothing but the type and hand out memory of their own; (flag)/(recognise) see DESIGN 8.4. (every-exit) in a gob reader the look-up of each key lies on every path to a successful return, and a reader stores no non-zero constant into a property."
 	c.RuleText = "obligation = (struct type, field) x rule over all jsonld-tagged fields of all tagged structs; exhaustive"
 	c.Trusted = []string{"go/types, go/ssa", "apcheck prov.go/tables.go", "encoding/gob transmits a value of a basic kind to a pointer of the same kind"}
 	t, err := buildTables(w)
